@@ -20,11 +20,13 @@
 
    Scope of the theorems (see NOTES.md): validator kinds str lstr int float num bool ms secs enum machine
    pow2 bool_int list dict(no param) and their _or_token forms; item types single list set dict
-   event_handler; flat sections (nested lists of sub-configs only when absent).                      *)
+   event_handler; flat sections (nested lists of sub-configs only when absent).
+   Round 3 (end of file): color / color_or_token / kivycolor / int_from_hex / dict(k:v) / subconfig(..), NESTED
+   sections validated recursively (vcfg), config-player entry names.                                   *)
 From Common Require Import Prelude.
 From Coq Require Import QArith.
-From C12 Require Import Base Model FloatLemmas DecText Lemmas.
-From C12.gen Require Import Time.
+From C12 Require Import Base Model Ext Player FloatLemmas DecText Lemmas ExtLemmas.
+From C12.gen Require Import Time Colors.
 Open Scope Z_scope.
 
 (* validate_item never returns an ill-typed or out-of-range value: for EVERY validator string, machine and
@@ -227,3 +229,108 @@ Theorem range_lt_variant_accepts_nan :
   forall lo hi, fl_lt FNaN lo = false /\ fl_lt hi FNaN = false.
 Proof. exact range_lt_variant_accepts_nan_l. Qed.
 Print Assumptions range_lt_variant_accepts_nan.
+
+(* ================================================================================================== *)
+(* Round 3: the second model layer (Ext.v, Player.v)                                                  *)
+
+(* validate_item incl. color / color_or_token / kivycolor / int_from_hex / dict(k:v) / subconfig(..): every accepted
+   value has the type of its validator.  [subok] is the type of a sub-config (instantiated in nested_config_sound by
+   "{} or a validated config of that section"); colours have the WEAK type the code guarantees (see below). *)
+Theorem validate_item_x_sound :
+  forall (sub : subvalidator) (subok : str -> yv -> bool) m,
+    (forall st p it r, sub st p it = Ok r -> subok p r = true) ->
+    (forall p, subok p (YDict []) = true) ->
+    forall st va it r, validate_item_x sub m st va it = Ok r -> has_type_x subok m va r = true.
+Proof. exact validate_item_x_sound. Qed.
+Print Assumptions validate_item_x_sound.
+
+(* ... and for a whole spec entry (single / list / set / dict / event_handler over ANY item validator) *)
+Theorem validate_config_item_x_sound :
+  forall (vi : ivalidator) (P : str -> yv -> bool),
+    (forall st va it r, vi st va it = Ok r -> P va r = true) ->
+    forall st ty va de item r,
+      validate_config_item_g vi st ty va de item = Ok r -> has_item_type_g P ty va r = true.
+Proof. exact validate_config_item_g_sound. Qed.
+Print Assumptions validate_config_item_x_sound.
+
+(* kivycolor: FULL statement "None, a (placeholder) string, or a 4-element RGBA list with every value in [0,1]" is
+   false of the faithful model (known finding kivycolor-list-unchecked: the r,g,b LIST form is neither length- nor
+   range-checked) ... *)
+Theorem kivycolor_type_refuted : exists item r, v_kivycolor item = Ok r /\ is_kivy r = false.
+Proof. exact kivycolor_type_refuted_l. Qed.
+Print Assumptions kivycolor_type_refuted.
+
+(* ... and holds for exactly the other two forms: EVERY named colour of rgb_color.py (translated table) and EVERY
+   string of 6..8 hex digits (in any letter case) is accepted and gives a complete colour in range.  (A 3-digit
+   string is not a hex string: the class of seeded mutant m9.) *)
+Theorem kivycolor_named_hex_sound :
+  forall s0, is_nil s0 = false -> is_paren (lower s0) = false ->
+    (named_color (lower s0) <> None \/ is_hex_string (lower s0) = true) ->
+    exists r, v_kivycolor (YStr s0) = Ok r /\ is_kivy r = true /\ r <> YNone.
+Proof. exact kivycolor_named_hex_sound_l. Qed.
+Print Assumptions kivycolor_named_hex_sound.
+
+(* color: three ints always (validate_item_x_sound); the documented range 0..255 fails for the list form (known
+   finding color-range-unchecked) and holds for named colours and hex strings *)
+Theorem color_range_refuted : exists item r, v_color None item = Ok r /\ is_color r = false.
+Proof. exact color_range_refuted_l. Qed.
+Print Assumptions color_range_refuted.
+
+Theorem color_named_hex_sound :
+  forall s, (named_color s <> None \/ is_hex_string s = true) ->
+    exists r, v_color None (YStr s) = Ok r /\ is_color r = true.
+Proof. exact color_named_hex_sound_l. Qed.
+Print Assumptions color_named_hex_sound.
+
+(* NESTED configurations.  For every spec store whose dicts have unique keys, every fuel (= nesting depth bound),
+   section with base specs and source: an accepted configuration satisfies the property's predicate AT EVERY DEPTH
+   (typed_cfg): it is a dict; unless the spec has __allow_others__ or invalid sections are tolerated it has no key
+   outside the merged spec (own declarations first) except _private ones; every non-private item key of the spec is
+   present with a value of its declared type, where the type of subconfig(sec,bases..) is "{} or a configuration of
+   sec+bases with this same property" and a nested sub-section holds a list of such configurations of "section:key".
+   This is validate_config_complete + unknown_key_rejected + validate_sound for the recursive validator. *)
+Theorem nested_config_sound :
+  forall root m allow_invalid, root_nodup root ->
+    forall fuel st names src r,
+      vcfg fuel root m allow_invalid true st names src = Ok r -> typed_cfg fuel root m allow_invalid names r = true.
+Proof. exact vcfg_sound_l. Qed.
+Print Assumptions nested_config_sound.
+
+(* the unknown-key check sits INSIDE the recursion target: no invocation of the recursive validator (top level, value
+   of a subconfig(..) entry, element of a nested list; any validation path state) accepts a source that has a
+   non-private key outside its merged spec.  (The class of seeded mutant m8: check moved to the public entry.) *)
+Theorem unknown_key_rejected_deep :
+  forall fuel root m add st names kvs specs c k v,
+    lookup_t root names = Some specs -> spec_has s_allow_others (build_spec specs) = false ->
+    In (YStr (c :: k), v) kvs -> spec_has (c :: k) (build_spec specs) = false -> c <> 95 ->
+    exists e, vcfg fuel root m false add st names (YDict kvs) = Err e.
+Proof. exact unknown_key_rejected_deep_l. Qed.
+Print Assumptions unknown_key_rejected_deep.
+
+(* reading typed_cfg: a validated (sub-)configuration contains only string keys that are spec keys or _private *)
+Theorem nested_config_keys_known :
+  forall fuel root m names d specs,
+    typed_cfg (S fuel) root m false names (YDict d) = true -> lookup_t root names = Some specs ->
+    spec_has s_allow_others (build_spec specs) = false ->
+    forall k v, In (k, v) d -> exists s, k = YStr s /\ (spec_has s (build_spec specs) = true \/ starts_underscore s = true).
+Proof. exact typed_cfg_no_unknown. Qed.
+Print Assumptions nested_config_keys_known.
+
+(* config-player entries (variable_player, score_queue_player, event_player keys `name{condition}|number`): an accepted
+   key has a non-empty name, the name is a prefix of the key, and EVERY character of it is a letter, digit, dash or
+   underscore (the anchored regex; the class of seeded mutant m12) *)
+Theorem player_name_wellformed :
+  forall m b key name ct num,
+    parse_and_validate m b key = Ok (name, ct, num) ->
+    forallb (name_ok b) name = true /\ name <> [] /\ exists rest, key = name ++ rest.
+Proof. exact parse_and_validate_name. Qed.
+Print Assumptions player_name_wellformed.
+
+(* ... hence an entry with ANY number of keys is accepted only if every key is well formed *)
+Theorem player_entry_names_wellformed :
+  forall m keys d,
+    var_entry m keys = Ok d ->
+    forall key, In key keys -> exists name ct num,
+      parse_and_validate m false key = Ok (name, ct, num) /\ forallb (name_ok false) name = true.
+Proof. intros m keys d H. exact (var_entry_names m keys [] d H). Qed.
+Print Assumptions player_entry_names_wellformed.
